@@ -26,6 +26,7 @@ func checkC06(w *World, r *Report) {
 	r.Rule("C06.sameoracle", "P4,P6", "the pool query and the withdraw operation obtain the withdrawable amount from the same function, with ctx.BlockTime() and the stored pool as arguments", 2)
 	r.Rule("C06.key", "P8", "= C05.key: withdraw-all and the send path and the pool query find the owner's pools whatever valid spelling of the owner address is used", 4)
 	r.Rule("C06.everypool", "P5", "a withdraw-all visits every pool of the owner: every iteration of the loop over the stored pools calls the time-lock oracle and the loop has no early exit", 2)
+	r.Rule("C06.once", "P5,P6", "= C05.pair for Withdrawn: the withdrawn counter of every paid pool grows by what was paid, is persisted only after the transfer succeeded and is persisted whenever the transfer was made - so a repeated withdrawal finds nothing left", 3)
 	r.Rule("C06.outflows", "P4,P5", "module->account transfers of cfevesting are exactly the withdraw transfer (amount: accumulator of CalculateWithdrawable results) and the new-vesting-account transfer, reached only after the recipient was created as a fresh continuous vesting account on the same path", 2)
 	if !ro.checkFloors(r) {
 		return
@@ -146,6 +147,8 @@ func checkC06(w *World, r *Report) {
 	}
 
 	poolKeyRule(w, r, "C06.key")
+	// ---------- C06.once ----------
+	shareRule(w, r, checkC05, "C05.pair", "C06.once", func(o Obligation) bool { return strings.Contains(o.Construct, "VestingPool.Withdrawn") })
 	// ---------- C06.everypool ----------
 	if wd := w.Func("x/cfevesting/keeper.Keeper.WithdrawAllAvailable"); wd != nil {
 		var pl *rangeLoop
